@@ -189,7 +189,7 @@ func breakCases(rng *gen.RNG, k ocraCase, model ref.Suite) []ocraCase {
 	if model.T {
 		mut("timestamp 9 bytes", func(i *ref.Input) { i.Timestamp = make([]byte, 9) })
 	}
-	if k.Via == viaBare || k.Via == viaRawValue || k.Via == viaEdited {
+	if k.Via == viaBare || k.Via == viaRawValue || k.Via == viaEdited || k.Via == viaPointer {
 		ms := func(note string, f func(s *ref.Suite)) {
 			b := k
 			f(&b.Suite)
